@@ -13,6 +13,7 @@ import (
 
 	"github.com/dtn7/dtn7-go/pkg/bpv7"
 	"github.com/dtn7/dtn7-go/pkg/cla"
+	"github.com/dtn7/dtn7-go/pkg/verifhook"
 )
 
 type SprayConfig struct {
@@ -204,6 +205,7 @@ func (sw *SprayAndWait) ReportFailure(bp BundleDescriptor, sender cla.Convergenc
 			break
 		}
 	}
+	verifhook.At("routing.spray.reportfailure.rmw")
 
 	sw.dataMutex.Lock()
 	sw.bundleData[bp.Id] = metadata
@@ -412,6 +414,7 @@ func (bs *BinarySpray) ReportFailure(bp BundleDescriptor, sender cla.Convergence
 			break
 		}
 	}
+	verifhook.At("routing.binaryspray.reportfailure.rmw")
 
 	bs.dataMutex.Lock()
 	bs.bundleData[bp.Id] = metadata
